@@ -53,6 +53,17 @@ Proof.
 Qed.
 Print Assumptions C19_concurrent_as_sequential.
 
+(* ... and when all threads have finished, in whatever order they ran, the process-global state is exactly the one
+   found at the start: lock free, LC_COLLATE restored *)
+Theorem C19_quiescent_state_initial : forall avail init sched ts0,
+  Forall (fun t => match t with Idle _ => True | _ => False end) ts0 ->
+  forall w, w = run avail sched (mkg false init, ts0) -> forallb finished (snd w) = true -> fst w = mkg false init.
+Proof.
+  intros avail init sched ts0 H w Hw F. pose proof (C19_mutex avail init sched ts0 H) as I. rewrite <- Hw in I.
+  destruct w as [s ts]. cbn [fst snd] in *. eapply quiescent_is_initial; eauto.
+Qed.
+Print Assumptions C19_quiescent_state_initial.
+
 Example C19_nonvacuous :
   let avail := fun l => Nat.eqb l 3 in
   run avail [0; 1; 1; 0; 0; 1; 1; 0; 1] (mkg false 9, [Idle [Loc 3 false; Loc 5 true]; Idle [NoLocale; Loc 3 true]])
